@@ -40,7 +40,7 @@ func main() {
 			"invocation: every (syscall, occurrence) after the first open of FILE that touches FILE, its descriptors or its directory, each injected with error codes (strace -e inject=…:error=) and with " +
 			"SIGKILL at syscall entry (crash point); plus RLIMIT_FSIZE at {0,1,half,size-1,size} and a size-limited tmpfs. After each run FILE must equal its original bytes or the exact stdout of `falco fmt FILE`, " +
 			"and must equal the original bytes whenever the command failed or was killed. A faulted run counts only if its own trace shows the injection landed on the intended syscall. " +
-			"Fault-free families: `fmt -w F1 F2 F3` for all 216 ordered triples of six file kinds (each file held to its own {original, `falco fmt Fi` output}, refused files byte-identical, exit status non-zero exactly when a file is refused) and thirteen further content classes (CRLF, CR, no final newline, BOM, invalid UTF-8, 70 kB line, 2 MB, 4 MB) compared byte for byte with `falco fmt FILE`. " +
+			"Fault-free families: `fmt -w F1 F2 F3` for all 216 ordered triples of six file kinds (each file held to its own {original, `falco fmt Fi` output}, refused files byte-identical, exit status non-zero exactly when a file is refused) and thirteen further content classes (CRLF, CR, no final newline, BOM, invalid UTF-8, 70 kB line, 2 MB, 4 MB) compared byte for byte with `falco fmt FILE` (also: same length but different content, fewer / more lines after formatting, percent signs); persistent faults (every call of rename / fsync / chmod / unlink / link / truncate fails, so a retry fails as well); histories (a run on a large file is killed at fsync, rename, chmod or close, the file gets new shorter content, a fault-free `fmt -w` must yield exactly the formatted new content whatever the killed run left in the directory). " +
 			"non-trivial = a run in which a fault or crash was actually injected on a syscall touching the target (or a limit that the write exceeded); distinct by (input class, syscall, occurrence, fault)",
 		Assumptions: []string{
 			"exhaustive only over the (syscall, occurrence) points of the recorded traces of these inputs, not over all crash points",
